@@ -17,12 +17,15 @@ W32 = ['-DUSE_FORCE_WIDEMUL_INT64=1']
 K32_FUNCS = [dict(fn='secp256k1_scalar_mul_512', short='scalar8x32_mul_512', defines=W32, style='bind'),
              dict(fn='secp256k1_scalar_sqr_512', short='scalar8x32_sqr_512', defines=W32, style='bind'),
              dict(fn='secp256k1_scalar_check_overflow', short='scalar8x32_check_overflow', defines=W32, style='let'),
-             dict(fn='secp256k1_scalar_reduce_512', short='scalar8x32_reduce_512', defines=W32, style='bind', deps=['scalar8x32_check_overflow'], inl=['secp256k1_scalar_reduce'])]
+             dict(fn='secp256k1_scalar_reduce_512', short='scalar8x32_reduce_512', defines=W32, style='bind', deps=['scalar8x32_check_overflow'], inl=['secp256k1_scalar_reduce']),
+             dict(fn='secp256k1_scalar_mul', short='scalar8x32_mul', defines=W32, style='bind', cps=['scalar8x32_mul_512', 'scalar8x32_reduce_512']),
+             dict(fn='secp256k1_scalar_sqr', short='scalar8x32_sqr', defines=W32, style='bind', cps=['scalar8x32_sqr_512', 'scalar8x32_reduce_512'])]
 K32_PROOFS = [('scalar8x32_mul_512', 'Kernel/Scalar8x32Mul512.vo', 'scalar8x32_mul_512_correct'),
               ('scalar8x32_sqr_512', 'Kernel/Scalar8x32Mul512.vo', 'scalar8x32_sqr_512_correct'),
               ('scalar8x32_check_overflow', 'Kernel/Scalar8x32Check.vo', 'scalar8x32_check_overflow_correct'),
-              ('scalar8x32_reduce_512', 'Kernel/Scalar8x32Reduce512.vo', 'scalar8x32_reduce_512_correct')]
-K32_SHAPES = {'scalar8x32_mul_512': 16, 'scalar8x32_sqr_512': 8, 'scalar8x32_reduce_512': 16, 'scalar8x32_check_overflow': 8}
+              ('scalar8x32_reduce_512', 'Kernel/Scalar8x32Reduce512.vo', 'scalar8x32_reduce_512_correct'),
+              ('scalar8x32_mul', 'Kernel/Scalar8x32Mul.vo', 'scalar8x32_mul_correct'), ('scalar8x32_sqr', 'Kernel/Scalar8x32Mul.vo', 'scalar8x32_sqr_correct')]
+K32_SHAPES = {'scalar8x32_mul_512': 16, 'scalar8x32_sqr_512': 8, 'scalar8x32_reduce_512': 16, 'scalar8x32_check_overflow': 8, 'scalar8x32_mul': 16, 'scalar8x32_sqr': 8}
 N32 = [0xD0364141, 0xBFD25E8C, 0xAF48A03B, 0xBAAEDCE6, 0xFFFFFFFE, 0xFFFFFFFF, 0xFFFFFFFF, 0xFFFFFFFF]
 def raw32_inputs(rng, n):
     c = rng.below(6)
@@ -52,7 +55,7 @@ def _item(item):
     """(fn, deps[, inlines[, style]]) or a dict with fn, deps, inl, style, defines, short"""
     if isinstance(item, dict): d = dict(item)
     else: d = dict(fn=item[0], deps=item[1], inl=item[2] if len(item) > 2 else [], style=item[3] if len(item) > 3 else 'let')
-    d.setdefault('deps', []); d.setdefault('inl', []); d.setdefault('style', 'let'); d.setdefault('defines', []); d.setdefault('short', d['fn'].replace('secp256k1_', ''))
+    d.setdefault('deps', []); d.setdefault('inl', []); d.setdefault('cps', []); d.setdefault('style', 'let'); d.setdefault('defines', []); d.setdefault('short', d['fn'].replace('secp256k1_', ''))
     d.setdefault('key', d['fn'] if not d['defines'] else d['short'])
     return d
 
@@ -65,11 +68,12 @@ def regenerate(funcs=None):
         d = _item(item); fn = d['fn']; key = d['key']
         path = os.path.join(gen, d['short'] + '.v')
         try:
-            if any(x not in specs for x in d['deps']): raise c2coq.Unsupported('a function it calls could not be translated')
+            if any(x not in specs for x in d['deps'] + d['cps']): raise c2coq.Unsupported('a function it calls could not be translated')
             text, ins, outs = c2coq.translate(vlib.REPO, fn, defines=d['defines'], callees={specs[x][1]: specs[x][0] for x in d['deps']},
-                                              requires=[specs[x][2] for x in d['deps']], inlines=d['inl'], style=d['style'], short=d['short'],
+                                              requires=[specs[x][2] for x in d['deps'] + d['cps']], cps={specs[x][1]: (specs[x][2],) + specs[x][3] for x in d['cps']}, inlines=d['inl'], style=d['style'], short=d['short'],
                                               callee_names={specs[x][1]: specs[x][2] for x in d['deps']})
-            specs[key] = (c2coq.translate.last.param_spec, fn, d['short'])
+            L = c2coq.translate.last
+            specs[key] = (L.param_spec, fn, d['short'], (L.param_names, L.sig_ins, L.sig_outs))
             text = text.replace(vlib.REPO, '<repo>')
             if not os.path.exists(path) or open(path).read() != text + '\n':
                 open(path, 'w').write(text + '\n')
